@@ -269,6 +269,11 @@ func Classify(err error) string {
 	}
 	s := err.Error()
 	switch {
+	case strings.Contains(s, "an error occurred while rolling back the release") ||
+		strings.Contains(s, "an error occurred while uninstalling the release"):
+		// the operation itself failed for another reason; what is wrapped here is the error of
+		// the automatic rollback / uninstall of --atomic (which can be "already exists" under a race)
+		return "err:other"
 	case strings.Contains(s, "another operation (install/upgrade/rollback) is in progress"):
 		return "err:pending"
 	case strings.Contains(s, "cannot reuse a name that is still in use"):
@@ -348,6 +353,15 @@ func Run(c Case) (obs Obs) {
 	r := eng.NewRunner(c.Backend)
 	obs.Pre = r.Run(eng.History{Backend: c.Backend, Init: c.Init, Steps: c.Pre})
 	r.Srv.TakeMuts()
+	// at most one one-shot cluster fault for the concurrent phase: the first operation that
+	// carries one arms it; whichever operation sends the matching request first is rejected
+	for i := range c.Ops {
+		if f := c.Ops[i].KFault; f != nil {
+			r.Srv.SetFault(&sim.Fault{Verb: f.Verb, Key: f.Key})
+			break
+		}
+	}
+	defer r.Srv.SetFault(nil)
 
 	n := len(c.Ops)
 	obs.Ops = make([]OpObs, n)
